@@ -151,7 +151,7 @@ class LRTDP(Plans):
         self.res.solved = defaultdict2(lambda s: False)
 
         for i in range(iterations):
-            if all(self.res.solved[s] for s in mdp.initial_state_dist().support):
+            if all(self.res.solved[s] for s, p in mdp.initial_state_dist().items() if p > 0):
                 return
             self.lrtdp_trial(mdp, mdp.initial_state_dist().sample(rng=self.rng))
         if i == (iterations - 1):
